@@ -16,7 +16,18 @@ pub fn panic_msg(e: &Box<dyn std::any::Any + Send>) -> String {
     }
 }
 
+/// glibc malloc tuning: the level-18/19 zstd contexts of store_contig_batch allocate ~100 MB tables per
+/// archive; with the default thresholds they are mmap'ed and page-faulted afresh every time (0.5-15 s per
+/// create under load). Keeping them on the heap brings a small create to well under a second.
+pub fn tune_malloc() {
+    unsafe {
+        libc::mallopt(libc::M_MMAP_THRESHOLD, 1 << 30);
+        libc::mallopt(libc::M_TRIM_THRESHOLD, i32::MAX);
+    }
+}
+
 pub fn main_loop(f: fn(&[&str]) -> String) {
+    tune_malloc();
     let args: Vec<String> = std::env::args().collect();
     if args.len() < 2 {
         eprintln!("usage: {} <casefile>", args[0]);
